@@ -36,10 +36,12 @@ func (r AppResult) String() string {
 
 // App drives ReadSlices from one goroutine, one call per Step.
 type App struct {
-	w       *World
-	step    chan struct{}
-	inCall  bool
-	Results []AppResult
+	w      *World
+	step   chan struct{}
+	inCall bool
+	// inReadAll: the application is inside BigMessage.ReadAll (its own I/O, no deadline by design)
+	inReadAll bool
+	Results   []AppResult
 	// ReadBig decides per BigMessage whether to ReadAll.
 	ReadBig func(n int) bool
 	stopped bool
@@ -86,7 +88,13 @@ func (a *App) call() {
 			}
 			if read {
 				r.BigRead = true
+				w.mu.Lock()
+				a.inReadAll = true
+				w.mu.Unlock()
 				r.BigData, r.BigErr = big.ReadAll()
+				w.mu.Lock()
+				a.inReadAll = false
+				w.mu.Unlock()
 			}
 		}
 	}()
@@ -248,4 +256,11 @@ func (w *World) Panics() []string {
 	w.mu.Lock()
 	defer w.mu.Unlock()
 	return append([]string(nil), w.panics...)
+}
+
+// InReadAll tells whether the application is inside BigMessage.ReadAll.
+func (a *App) InReadAll() bool {
+	a.w.mu.Lock()
+	defer a.w.mu.Unlock()
+	return a.inReadAll
 }
